@@ -208,12 +208,18 @@ Fail == [ok |-> FALSE, v |-> JNull, i |-> 0, d |-> TRUE]
 Okay(v, i, d) == [ok |-> TRUE, v |-> v, i |-> i, d |-> d]
 EscChar(e) == CASE e = 34 -> 34 [] e = 92 -> 92 [] e = 47 -> 47 [] e = 98 -> 8 [] e = 102 -> 12
                 [] e = 110 -> 10 [] e = 114 -> 13 [] e = 116 -> 9 [] OTHER -> -1
+IsLead(c) == c >= 55296 /\ c <= 56319
+IsTrail(c) == c >= 56320 /\ c <= 57343
+\* the documented exception: goja replaces a lone surrogate (raw or escaped) in JSON.parse input by U+FFFD.  Texts whose
+\* strings contain one are specified here like all others but marked as outside the compared domain (d = FALSE).
+LoneFree(s) == \A i \in DOMAIN s : (IsLead(s[i]) => (i < Len(s) /\ IsTrail(s[i + 1])))
+                                    /\ (IsTrail(s[i]) => (i > 1 /\ IsLead(s[i - 1])))
 \* JSONString, positioned after the opening quote: any unit except ", \ and U+0000..U+001F, or an escape
 RECURSIVE StrBody(_, _, _)
 StrBody(s, i, acc) ==
   LET c == At(s, i) IN
   IF c < 32 THEN Fail
-  ELSE IF c = 34 THEN Okay(JStr(acc), i + 1, TRUE)
+  ELSE IF c = 34 THEN Okay(JStr(acc), i + 1, LoneFree(acc))
   ELSE IF c = 92 THEN
        (LET e == At(s, i + 1) IN
         IF EscChar(e) # -1 THEN StrBody(s, i + 2, Append(acc, EscChar(e)))
@@ -275,8 +281,8 @@ PMembers(s, i, acc, d) ==            \* i: first non-blank position after '{' or
                  ELSE LET m == SkipWs(s, r.i)
                           c == At(s, m)
                           acc2 == Append(acc, Mem(k.v.v, r.v))
-                      IN IF c = 44 THEN PMembers(s, SkipWs(s, m + 1), acc2, d /\ r.d)
-                         ELSE IF c = 125 THEN Okay(MkObj(acc2), m + 1, d /\ r.d)
+                      IN IF c = 44 THEN PMembers(s, SkipWs(s, m + 1), acc2, d /\ r.d /\ k.d)
+                         ELSE IF c = 125 THEN Okay(MkObj(acc2), m + 1, d /\ r.d /\ k.d)
                          ELSE Fail
 \* JSONText: white space, one value, white space
 ParseText(s) == LET r == PValue(s, 1) IN
@@ -341,8 +347,6 @@ Accepts(s) == Accepting(PRun(Cfg0, s, 1))
 \* ---------------------------------------------------------------------------------------------------------------
 \* JSON.stringify, ECMA-262 25.5.2
 \* QuoteJSONString (25.5.2.3): code points of the string; lone surrogates and controls escaped, lower-case hex
-IsLead(c) == c >= 55296 /\ c <= 56319
-IsTrail(c) == c >= 56320 /\ c <= 57343
 UEsc(c) == <<92, 117>> \o W(<<HexD[((c \div 4096) % 16) + 1], HexD[((c \div 256) % 16) + 1], HexD[((c \div 16) % 16) + 1], HexD[(c % 16) + 1]>>)
 QuoteUnit(s, i) ==
   LET c == s[i] IN
@@ -665,15 +669,18 @@ Add(p, kid, kd) ==
   /\ n' = n + 1
   /\ UNCHANGED <<text, cfg>>
 \* JSON.stringify(val, replacer, space): the text, and the rendering of what JSON.parse returns for it
-\* (a gap that is not white space makes the text of a non-empty container unparsable)
-StrOutcome(j, gap) == IF j.t = "undef" THEN [s |-> "undefined", back |-> "-"]
-                      ELSE IF j.t = "TypeError" THEN [s |-> "TypeError", back |-> "-"]
+\* (a gap that is not white space makes the text of a non-empty container unparsable; pb = "F": the text contains an
+\* escaped lone surrogate, parsing it back falls under the documented exception and is not compared)
+StrOutcome(j, gap) == IF j.t = "undef" THEN [pb |-> "T", res |-> [s |-> "undefined", back |-> "-"]]
+                      ELSE IF j.t = "TypeError" THEN [pb |-> "T", res |-> [s |-> "TypeError", back |-> "-"]]
                       ELSE LET tx == Txt(j, gap, <<>>)
                                r == ParseText(tx)
-                           IN [s |-> ShowStr(tx), back |-> IF r.ok THEN Render(r.v) ELSE "SyntaxError"]
+                           IN IF r.ok /\ ~r.d THEN [pb |-> "F", res |-> [s |-> ShowStr(tx), back |-> "-"]]
+                              ELSE [pb |-> "T", res |-> [s |-> ShowStr(tx), back |-> IF r.ok THEN Render(r.v) ELSE "SyntaxError"]]
 Stringify(rid, iid) ==
   /\ Mode = "str" /\ val # None
-  /\ act' = [op |-> "str", rep |-> rid, ind |-> iid, res |-> StrOutcome(Ser(Replacer(rid), <<>>, val), Gap(iid))]
+  /\ LET o == StrOutcome(Ser(Replacer(rid), <<>>, val), Gap(iid)) IN
+     act' = [op |-> "str", rep |-> rid, ind |-> iid, pb |-> o.pb, res |-> o.res]
   /\ UNCHANGED <<text, cfg, val, n>>
 \* Object.MarshalJSON: JSON.stringify(o) without replacer and space; "null" where stringify gives undefined
 Marshal ==
